@@ -358,10 +358,13 @@ class MustFacts:
     call_writes(call_ast) -> set of lvalue texts the call may write (e.g. {'self.state'}) or {'*'}.
     """
 
-    def __init__(self, cfg, call_writes=None, entry_facts=(), resolver=None):
+    def __init__(self, cfg, call_writes=None, entry_facts=(), resolver=None, bool_defs=None):
         self.cfg = cfg
         self.call_writes = call_writes or (lambda c: ())
         self.resolver = resolver  # norm.Resolver for constants
+        # single-definition locals holding a boolean expression (`too_big = limit < n`): a test of the local also
+        # establishes the atoms of its definition (the definition's operands are locals/attributes read, not written, in between)
+        self.bool_defs = bool_defs or {}
         self.IN = {cfg.entry.id: frozenset(entry_facts)}
         self._solve()
 
@@ -369,7 +372,20 @@ class MustFacts:
         if label is None:
             return ()
         if label[0] in ("T", "F"):
-            return norm.atoms(label[1], label[0] == "T", self.resolver)
+            at = list(norm.atoms(label[1], label[0] == "T", self.resolver))
+            if self.bool_defs and any(isinstance(x, ast.Name) and x.id in self.bool_defs for x in ast.walk(label[1])):
+                import copy
+
+                class _S(ast.NodeTransformer):
+                    def visit_Name(s_, node):
+                        if isinstance(node.ctx, ast.Load) and node.id in self.bool_defs:
+                            return copy.deepcopy(self.bool_defs[node.id])
+                        return node
+                exp = _S().visit(ast.Expression(body=copy.deepcopy(label[1]))).body
+                for a_ in norm.atoms(exp, label[0] == "T", self.resolver):
+                    if a_ not in at:
+                        at.append(a_)
+            return at
         return ()
 
     def _kills(self, n):
